@@ -63,6 +63,9 @@ func TourWithdrawalEdges(rt *rapid.T, muts []string) *ChainCase {
 		if s >= 3 {
 			p.NExits = rapid.SampledFrom([]int{0, 0, 1, 2}).Draw(rt, "n_exits")
 			p.NBLSChanges = rapid.SampledFrom([]int{0, 0, 1}).Draw(rt, "n_bls")
+			p.NAttSlash = rapid.SampledFrom([]int{0, 0, 0, 1}).Draw(rt, "n_att_slash") // slashed -> withdrawable after the (4-epoch) slashings vector
+			p.NPropSlash = rapid.SampledFrom([]int{0, 0, 0, 1}).Draw(rt, "n_prop_slash")
+			p.SlashSpan = rapid.IntRange(0, 2).Draw(rt, "slash_span")
 		}
 		a := Action{Kind: "block", Slots: 1, Plan: p}
 		if len(muts) > 0 {
